@@ -48,6 +48,11 @@ REQUIRED = {
     "ref/face_area:nonconvex_face": 80, "ref/face_normals:nonconvex_face": 150, "ref/total_area:nonconvex_faces": 5,
     "coverage/ref:face_area_on_nonconvex_faces_star_shaped_from_vertex_mean": 60,
     "reuse": 15000,
+    "needle/corner_angles": 2000, "needle/cotangent": 2000, "needle/cotangent_from_cached_angles": 500, "needle/triangle_angle_sum": 150,
+    "needle/defect_sum_2pi_chi": 60, "identity/interp_mode_spelling": 3000,
+    "identity/interp_constant/interpolate_faces_to_vertices:area:UPPER": 800, "identity/interp_constant/interpolate_faces_to_vertices:angle:Capitalised": 800,
+    "identity/interp_constant/average_corners_to_vertices:uniform:UPPER": 800, "identity/interp_constant/average_corners_to_vertices:angle:Capitalised": 800,
+    "identity/interp_constant/average_corners_to_faces:uniform:Capitalised": 800, "identity/interp_constant/average_corners_to_faces:angle:UPPER": 800,
     "far": 60000, "far/face_normals": 1500, "far/vertex_normals:uniform": 1000, "far/vertex_normals:area": 1000, "far/vertex_normals:angle": 1000,
     "far/face_area": 3000, "far/corner_angles": 6000, "far/cotangent": 4000, "far/cotan_weights": 1500, "far/angle_defects": 900,
     "far/face_circumcenter": 2500, "far/triangle_aspect_ratio": 1800, "far/curvature_matrices": 2500, "far/border_normals": 1500,
@@ -86,6 +91,13 @@ ASSUMPTIONS = [
     "connection: faces with three interior vertices) and rigid / scale / renumbering invariance - values on curved meshes are not judged; a "
     "connection object that cannot be built is C18's business (noted)",
     "mean_*(n=k) is read as the mean of the first min(k, count) elements ('early stopping')",
+    "mode strings: the three averaging routines lower-case their `weight`, so 'uniform' / 'UNIFORM' / 'Uniform' (etc.) are all driven and judged "
+    "(constant stays constant; 'SUM'/'Sum' must equal 'sum'); vertex_normals(interpolation=...) refuses other spellings with its argument error - "
+    "noted, not judged",
+    "needle pass: corner angles 1e-9..1e-3 rad, judged against exact rational arithmetic on the stored coordinates with ABSOLUTE tolerance "
+    "8 eps + 8 eps*angle (the cross product of nearly parallel edge vectors cancels: atan2(|uxw|,u.w) is accurate to ~6u absolute, i.e. only "
+    "u/angle relative); angle sum pi within 32 eps; defect sum within 16 eps (corners + vertices); cotangent within 16 eps (1+cot^2), 32 eps "
+    "(1+cot^2) through the cached-angle branch",
     "far-from-the-origin pass: the input is the ROUNDED translated (or rotated + translated) coordinate array, offset = power of two x dyadic "
     "direction, |offset| = 1e3..1e7 mesh sizes, and the reference is evaluated from those stored coordinates; differences of stored coordinates "
     "are exact (Sterbenz) or correctly rounded, so every translation-invariant quantity has error <= C u cond(quantity) with C <= ~50, "
@@ -380,6 +392,8 @@ def classify(got, exp, bad, judged):
     """Stable description of a disagreement pattern (computed from the values, no random content)."""
     if not np.all(np.isfinite(got[bad])):
         return "non_finite_value"
+    if np.all(got[bad] == 0) and np.any(exp[bad] != 0):
+        return "returns_zeros"
     nb, nj = int(np.sum(bad)), int(np.sum(judged))
     if got.ndim == 1:
         e = exp[bad]
